@@ -402,7 +402,9 @@ func TestC01(t *testing.T) {
 			return
 		}
 
-		grid(t, rec)
+		if hx.FirstShard() {
+			grid(t, rec) // enumerations run once, the rapid search in every shard
+		}
 
 		corpus := gen.SmallCorpus(20000)
 		hx.RapidCheck(t, rec, "mutants", func(rt *rapid.T, fail func(string, string, any)) {
